@@ -12,8 +12,28 @@
 import Oryx.Proofs.Jose
 import Oryx.Proofs.JoseKw
 import Oryx.Proofs.JoseB64
+import Oryx.Gen.Jose
 namespace Oryx.Props.C16
 open Oryx Oryx.Res Oryx.Jose
+
+/-! ### gating obligations on the constants regenerated from https/jose on every run
+
+The RFC 7638 thumbprint input is the JSON object with exactly the required members in lexicographic
+order and no whitespace: `{"crv","kty","x","y"}` for EC and `{"e","kty","n"}` for RSA; the algorithm
+identifiers are the RFC 7518 names (a renamed or mistyped identifier changes what peers negotiate). -/
+example : Gen.Jose.ecThumbprintTemplate = "{\"crv\":\"%s\",\"kty\":\"EC\",\"x\":\"%s\",\"y\":\"%s\"}" := by decide
+example : Gen.Jose.rsaThumbprintTemplate = "{\"e\":\"%s\",\"kty\":\"RSA\",\"n\":\"%s\"}" := by decide
+example : [Gen.Jose.HS256, Gen.Jose.HS384, Gen.Jose.HS512, Gen.Jose.RS256, Gen.Jose.RS384, Gen.Jose.RS512,
+           Gen.Jose.PS256, Gen.Jose.PS384, Gen.Jose.PS512, Gen.Jose.ES256, Gen.Jose.ES384, Gen.Jose.ES512]
+        = ["HS256", "HS384", "HS512", "RS256", "RS384", "RS512", "PS256", "PS384", "PS512", "ES256", "ES384", "ES512"] := by decide
+example : [Gen.Jose.RSA1_5, Gen.Jose.RSA_OAEP, Gen.Jose.RSA_OAEP_256, Gen.Jose.A128KW, Gen.Jose.A192KW, Gen.Jose.A256KW,
+           Gen.Jose.DIRECT, Gen.Jose.ECDH_ES, Gen.Jose.ECDH_ES_A128KW, Gen.Jose.ECDH_ES_A192KW, Gen.Jose.ECDH_ES_A256KW,
+           Gen.Jose.A128GCMKW, Gen.Jose.A192GCMKW, Gen.Jose.A256GCMKW]
+        = ["RSA1_5", "RSA-OAEP", "RSA-OAEP-256", "A128KW", "A192KW", "A256KW", "dir", "ECDH-ES", "ECDH-ES+A128KW",
+           "ECDH-ES+A192KW", "ECDH-ES+A256KW", "A128GCMKW", "A192GCMKW", "A256GCMKW"] := by decide
+example : [Gen.Jose.A128CBC_HS256, Gen.Jose.A192CBC_HS384, Gen.Jose.A256CBC_HS512, Gen.Jose.A128GCM, Gen.Jose.A192GCM,
+           Gen.Jose.A256GCM, Gen.Jose.DEFLATE]
+        = ["A128CBC-HS256", "A192CBC-HS384", "A256CBC-HS512", "A128GCM", "A192GCM", "A256GCM", "DEF"] := by decide
 
 /-! ### base64url -/
 
